@@ -265,7 +265,15 @@ fn strategy_cap(lo: usize, hi: usize, cap: usize) -> BoxedStrategy<Case> {
         3 => cfg_among(&SK, cap, multiplier_nonneg).prop_flat_map(move |cfg| { let h2 = hi.max(3 * cfg.n() + 40); (Just(cfg), cancel_stream(lo, h2)) }).prop_map(|(cfg, v)| Case { cfg, scalar: true, xs: xs(&v), bars: vec![] }),
         1 => cfg_among(&BK, cap, multiplier_nonneg).prop_flat_map(move |cfg| { let h2 = hi.max(3 * cfg.n() + 40); (Just(cfg), cancel_stream(lo, h2), cancel_stream(lo, h2), cancel_stream(lo, h2)) }).prop_map(|(cfg, a, b, cc)| {
             let len = a.len().min(b.len()).min(cc.len());
-            let bars = (0..len).map(|i| RawBar { o: a[i], h: a[i].max(b[i]), l: a[i].min(b[i]), c: cc[i], v: 1.0 }).collect();
+            let mut bars: Vec<RawBar> = (0..len).map(|i| RawBar { o: a[i], h: a[i].max(b[i]), l: a[i].min(b[i]), c: cc[i], v: 1.0 }).collect();
+            // every fourth stream opens with zero-range bars at one price (a width of exactly 0 times the multiplier)
+            if len > 0 && (a[0].to_bits() >> 7) % 4 == 0 {
+                let k = 1 + (cc[0].to_bits() >> 9) as usize % 6;
+                let x = a[0];
+                for b in bars.iter_mut().take(k) {
+                    *b = RawBar { o: x, h: x, l: x, c: x, v: 1.0 };
+                }
+            }
             Case { cfg, scalar: false, xs: vec![], bars }
         }),
     ]
@@ -273,7 +281,7 @@ fn strategy_cap(lo: usize, hi: usize, cap: usize) -> BoxedStrategy<Case> {
 }
 
 pub fn run(g: &mut Global) {
-    g.rule = "exhaustive: scalar sequences over {-1e12,-1,0,1e-6,1,1e12} for SD, MAD, the (MIN,MAX) pair, SMA, WMA, EMA, ATR, MACD, BB (multipliers 0 and 2), KC with periods 1..=5 and TRUE_RANGE; random: finite streams of any sign engineered for cancellation (blocks of +-huge values followed by flat stretches of small ones, multi-regime streams), bars with low <= high and close anywhere, periods to 512, multipliers >= 0 from {0,1e-9,1,2,3,1e3,1e6} and U(0,10). Oracle: invariants after every input — SD, MAD, TR, ATR >= 0 and not NaN, Minimum <= Maximum (no slack); lower <= average <= upper, CE long <= window max(high) and short >= window min(low), histogram = line - signal, SMA/WMA inside the window hull, EMA inside the history hull (slack tau(t)*M as the property allows; the count holding with no slack is reported). Non-trivial = a drop in magnitude of >= 6 decades inside one window span, or multiplier 0 or >= 1e3; distinct by hash of (kind, parameters, path, inputs).".into();
+    g.rule = "exhaustive: scalar sequences over {-1e12,-1,0,1e-6,1,1e12} for SD, MAD, the (MIN,MAX) pair, SMA, WMA, EMA, ATR, MACD, BB (multipliers 0 and 2), KC with periods 1..=5 and TRUE_RANGE; random: finite streams of any sign engineered for cancellation (blocks of +-huge values followed by flat stretches of small ones, multi-regime streams), bars with low <= high and close anywhere, periods to 512, multipliers >= 0 from {0,1e-9,1,2,3,1e3,1e6,1e39,1e300,f64::MAX} and U(0,10), every fourth bar stream opening with zero-range one-price bars; large_periods: windows of 1025 ... 4097 slots. Oracle: invariants after every input — SD, MAD, TR, ATR >= 0 and not NaN, Minimum <= Maximum (no slack); lower <= average <= upper, CE long <= window max(high) and short >= window min(low), histogram = line - signal, SMA/WMA inside the window hull, EMA inside the history hull (slack tau(t)*M as the property allows; the count holding with no slack is reported). Non-trivial = a drop in magnitude of >= 6 decades inside one window span, or multiplier 0 or >= 1e3; distinct by hash of (kind, parameters, path, inputs).".into();
     g.assumptions = vec!["multipliers are finite and >= 0".into(), "|x| <= 1e12".into()];
     let cfgs = enum_cfgs();
     let d = g.tier.pick(6usize, 9usize);
@@ -298,6 +306,32 @@ pub fn run(g: &mut Global) {
     if g.tier == Tier::Thorough {
         g.random("long", 800, &|| strategy(3000, 8000), &check);
     }
+    // windows beyond 1024 slots ("for every period"): block-wise loops and periodic rebuilds drop a remainder there
+    let seedb = g.seed;
+    const LP: [usize; 5] = [1025, 1500, 2049, 3000, 4097];
+    const LK: [Kind; 9] = [Kind::Sma, Kind::Wma, Kind::Ema, Kind::Sd, Kind::Bb, Kind::Min, Kind::Kc, Kind::Ce, Kind::Mad];
+    g.exhaustive(
+        "large_periods",
+        9 * 5 * 3,
+        &move |i| {
+            let kind = LK[(i % 9) as usize];
+            let r = i / 9;
+            let n = LP[(r % 5) as usize];
+            let n = if kind == Kind::Mad { n.min(1500) } else { n };
+            let regime = [0usize, 7, 3][(r / 5) as usize % 3];
+            let mut s = seedb ^ (i + 19).wrapping_mul(0x9E3779B97F4A7C15);
+            let noise: Vec<f64> = (0..3 * n + 60).map(|_| unit(&mut s)).collect();
+            let vals = expand(Domain::AnySign, regime, [250.0, 1.0, 1e5][(i % 3) as usize], unit(&mut s), &noise);
+            let cfg = Cfg { kind, p: vec![n], m: X([2.0, 0.0, 3.0][(i % 3) as usize]) };
+            if kind == Kind::Ce || i % 4 == 3 {
+                let bars = vals.iter().map(|&x| RawBar { o: x, h: x + 0.01 * x.abs(), l: x - 0.01 * x.abs(), c: x, v: 1.0 }).collect();
+                Case { cfg, scalar: false, xs: vec![], bars }
+            } else {
+                Case { cfg, scalar: true, xs: xs(&vals), bars: vec![] }
+            }
+        },
+        &check,
+    );
     // the every-step sign invariant of SD / BB / MAD on single-instance streams beyond 2^16 inputs
     // (c13's stream generator; only the "never negative, never NaN" clause is judged here)
     let seed = g.seed;
